@@ -366,7 +366,9 @@ def c17_main():
     if len(beh) < 100:
         raise ToolError("vacuity: %d configurations" % len(beh))
     if not run.thorough:
-        beh = beh[run.seed % 2::2]
+        # a seeded half, chosen per configuration (not by position in TLC's output order)
+        import hashlib as _h
+        beh = [b for b in beh if (_h.blake2b(json.dumps(b, sort_keys=True).encode(), digest_size=2).digest()[0] + run.seed) % 2 == 0]
     tdir = tools_dir()
     d = os.path.join(run.wd, "files")
     os.makedirs(d, exist_ok=True)
@@ -427,7 +429,7 @@ def c17_main():
                       {"kind": "cli17", "tag": tag, "case": {k: o[k] for k in o if k != "obs"}, "obs": o["obs"]})
     if tags:
         log("[C17] failing observations by tag: %s" % tags)
-    run.cov["rule"] = ("the full product data set x region-list length {1,3,40} x name mode {col 4, col 5, interval, none, default} x --min-max x -t {1,2,3,8,16} from MC_Stats; regions inside, "
+    run.cov["rule"] = ("the full product data set x region-list length {1,3,40} x name mode {col 4, col 5, interval, none, default} x --min-max x -t {1,2,3,8,16} x region rule {mixed widths, fixed-width windows} from MC_Stats; regions inside, "
                        "straddling, between and outside data; bigwigaverageoverbed (also compared byte for byte with -t 1), bigwigvaluesoverbed, and the library functions; "
                        "non-trivial = more than one region")
     run.sample(obs[0])
